@@ -17,6 +17,8 @@ class Unsupported(Exception):
 # kind in "once", "opt", "plus", "many"
 
 def parse(glob):
+    if "**(" in glob:
+        raise Unsupported("'**(' is ambiguous")
     seq, rest = _parse_seq(glob, 0, stop="")
     if rest != len(glob):
         raise Unsupported("unbalanced: %r" % glob)
